@@ -162,4 +162,35 @@ def replay(cfg, cex):
             if not real_np.allclose(got, want, rtol=1e-9, atol=1e-3):
                 return True, f"voxel {idx}: transform gives {got.tolist()} nm, the affine places its centre at {want.tolist()} nm (affine {A[:3].tolist()})"
         return False, "transform correct on the real code"
-    return True, "info clause violated (concrete enumeration): " + str(cex.get("detail"))
+    # info clauses: write a real NIfTI file with the same shape / stored dtype / header scaling and re-derive the info
+    import os
+    import tempfile
+    shape, dt, scaling, sharding = cex["inputs"]["case"]
+    vs = (1.0, 2.0, 0.5)
+    with tempfile.TemporaryDirectory() as td:
+        data = (real_np.arange(builtins.int(real_np.prod(shape))) % 100).astype(dt).reshape(shape)
+        img = nibabel.Nifti1Image(data, real_np.diag([vs[0], vs[1], vs[2], 1.0]))
+        img.header.set_data_dtype(dt)
+        if scaling:
+            img.header.set_slope_inter(scaling[0], scaling[1])
+        fn = os.path.join(td, "v.nii")
+        nibabel.save(img, fn)
+        img = nibabel.load(fn)
+        options = {"sharding": sharding, "gzip": cfg["gzip"]} if sharding else {}
+        info_s, jt, in_dt, imperfect = vr.nibabel_image_to_info(img, options=options)
+        info = json.loads(info_s)
+        sc = info["scales"][0]
+        ng = ("uint8", "uint16", "uint32", "uint64", "float32")
+        eff = real_np.asanyarray(img.dataobj).dtype.name      # the type of the values the file really holds
+        probs = []
+        if sc["size"] != list(shape[:3]):
+            probs.append(f"size {sc['size']}")
+        if info["num_channels"] != (shape[3] if len(shape) == 4 else 1):
+            probs.append(f"num_channels {info['num_channels']}")
+        if sc["resolution"] != [1e6, 2e6, 5e5]:
+            probs.append(f"resolution {sc['resolution']}")
+        if info["data_type"] != (eff if eff in ng else "float32") or imperfect != (eff not in ng):
+            probs.append(f"data_type {info['data_type']} (imperfect={imperfect}) for values of type {eff}")
+        if bool(sharding) != ("sharding" in sc):
+            probs.append("sharding spec")
+    return bool(probs), "; ".join(probs) or "info correct on the real code"
